@@ -23,7 +23,7 @@ Definition exp_qr (bp : bparams) (gr : list (option val)) : list (option val) :=
   [bit hq 0 (g 0%nat); bit hq 1 (g 1%nat); bit hq 2 (g 2%nat); bit hq 3 (g 3%nat);
    sigb bp 0 (g 4%nat); sigb bp 1 (g 5%nat); sigb bp 2 (g 6%nat); sigb bp 3 (g 7%nat); sigb bp 4 (g 8%nat);
    sigb bp 5 (g 9%nat); sigb bp 6 (g 10%nat); sigb bp 7 (g 11%nat); sigb bp 8 (g 12%nat); sigb bp 9 (g 13%nat);
-   sigb bp 10 (g 14%nat); sigb bp 11 (g 15%nat); sigb bp 12 (g 16%nat); sigb bp 13 (g 17%nat); sigb bp 14 (g 18%nat);
+   narrow16 (sigb bp 10 (g 14%nat)); sigb bp 11 (g 15%nat); sigb bp 12 (g 16%nat); sigb bp 13 (g 17%nat); sigb bp 14 (g 18%nat);
    sigb bp 15 (g 19%nat); sigb bp 16 (g 20%nat);
    bit hq 5 (g 21%nat); bit hq 6 (g 22%nat); bit hq 7 (g 23%nat); bit hq 8 (g 24%nat); bit hq 9 (g 25%nat);
    bit hq 10 (g 26%nat); bit hq 10 (g 27%nat);
